@@ -313,8 +313,12 @@ def explore_load(prop, tier, seed, oracle, tags, n_quick, emit=(), with_truth=Fa
             continue
         if D.meta.get('wild'):
             o = ob.Obs()
+            sq_, st_ = [], []
             try:
-                h = core.load_py(D)
+                try:
+                    h = core.load_py(D)
+                finally:
+                    sq_, st_ = core.sax_of_last_load(o.tags)
                 o.put('load', 'ok'); ob.observe_load(h, o)
                 o.wild_problems = orc.wf_problems(h) + list(o.problems)
                 o.wild_literal = orc.wf_problems(h, literal=True) + list(o.problems)
@@ -327,7 +331,8 @@ def explore_load(prop, tier, seed, oracle, tags, n_quick, emit=(), with_truth=Fa
                 o.put('load', 'err:' + ob.err_name(e))
                 o.wild_problems = []; o.wild_literal = []; o.wild_always = []
                 ex.res.count('wild_files_rejected')
-            ex.submit(cid, D, o.tags, ['load', 'genes', 'members', 'forest', 'genomes'], extra=o, hist=False)
+            ex.res.count('parser_calls_compared_in_lock_step', sum(len(x.split(' (')) for x in sq_))
+            ex.submit(cid, D, o.tags, ['load', 'genes', 'members', 'forest', 'genomes'] + st_, extra=o, hist=False, queries=sq_)
             continue
         poke = prop in ('C02', 'C04') and ex.rng.random() < 0.15
         twice = (not poke) and prop in ('C01', 'C02', 'C04') and ex.rng.random() < 0.08
@@ -340,6 +345,8 @@ def explore_load(prop, tier, seed, oracle, tags, n_quick, emit=(), with_truth=Fa
         if h is None:
             continue
         o = ob.Obs(); o.put('load', 'ok')
+        sq_, st_ = core.sax_of_last_load(o.tags)
+        ex.res.count('parser_calls_compared_in_lock_step', sum(len(x.split(' (')) for x in sq_))
         try:
             if poke:
                 # "in every loaded analysis": also after read-only reporting calls (profiles create genomes lazily and, for
@@ -383,7 +390,7 @@ def explore_load(prop, tier, seed, oracle, tags, n_quick, emit=(), with_truth=Fa
         if D.meta.get('large'):
             continue            # oracle only
         # (species-level files: the model follows the dissolving branch of the loader too -- compare the whole hierarchy)
-        ex.submit(cid, D, o.tags, tags + (['forest', 'genomes'] if D.meta.get('species_level') else []), emit=emit, extra=o)
+        ex.submit(cid, D, o.tags, tags + (['forest', 'genomes'] if D.meta.get('species_level') else []) + st_, emit=emit, extra=o, queries=sq_)
         if prop == 'C02' and D.species and k % 5 == 0:
             # a top-level group labelled with the single species of its members cannot be dissolved into a parent; the
             # unchanged loader refuses the file -- should it ever load, the links of the result must still be sound
@@ -905,7 +912,7 @@ def c11(tier, seed):
         decl = core.declared_map(D)
         allg = list(decl)
         tids = [tid for _, _, tid in D.families]
-        o = ob.Obs(); queries = []; bad = []
+        o = ob.Obs(); queries = []; bad = []; sax_tags = []
         nflt = 4 if tier == 'quick' else 8
         for fk in range(nflt + 1):
             kind = ex.rng.choice(['hog', 'int', 'ext', 'union', 'nothing', 'all', 'intid'])
@@ -951,6 +958,7 @@ def c11(tier, seed):
             want_fams, named = selected_families(D, set(hog_ids), set(int_ids), set(ext_ids))
             pfx = 'F%d.' % fk
             queries.append('(filter %d (hog %s) (ext %s) (int %s))' % (fk, ' '.join(map(gen.q, hog_ids)), ' '.join(map(gen.q, ext_ids)), ' '.join(map(gen.q, int_ids))))
+            core.saxtrace.reset()
             try:
                 transport = ex.rng.choice(['string', 'string', 'file', 'gz'])
                 ex.res.count('filter_transport_' + transport)
@@ -971,6 +979,11 @@ def c11(tier, seed):
                 bad.append('filtered load raised %s: %s' % (type(e).__name__, e))
                 o.put(pfx + 'load', 'err:' + ob.err_name(e))
                 continue
+            # the second pass in lock step with the stack machine (skip mode included): the calls the XML library made, the
+            # selection the first pass handed over, the state of the parser object after every call
+            sq_, st_ = core.sax_of_last_load(o.tags)
+            queries += sq_; sax_tags = st_ or sax_tags
+            ex.res.count('parser_calls_compared_in_lock_step', sum(len(x.split(' (')) for x in sq_))
             o.put(pfx + 'load', 'ok')
             try:
                 ob.observe_load(hf, o, pfx)
@@ -1031,7 +1044,7 @@ def c11(tier, seed):
         tags = []
         for fk in range(8):
             tags += ['F%d.%s' % (fk, t) for t in ('load', 'genes', 'members', 'forest', 'genomes')]
-        ex.submit(cid, D, o.tags, tags, queries=queries)
+        ex.submit(cid, D, o.tags, tags + sax_tags, queries=queries)
     ex.finish()
     ex.close()
     return ex.res
@@ -1647,6 +1660,10 @@ def c20(tier, seed):
             except Exception as e:      # noqa
                 o.put('rejected', 'yes')
                 ex.res.count('pyham_' + kind + '_' + ob.err_name(e))
+            # the calls up to the one that raised, in lock step with the stack machine: the same call raises, with the same
+            # exception class, after the same sequence of parser states ("wherever in the file the fault occurs")
+            sq20, st20 = ([], []) if late_kw else core.sax_of_last_load(o.tags)
+            ex.res.count('parser_calls_compared_in_lock_step', sum(len(x.split(' (')) for x in sq20))
             q20 = []
             tids20 = [g[1] for g in gr if g[0] == 'og' and g[1] is not None]
             if kind not in ('unknown-species', 'internal-as-species') and tids20 and len(tids20) == len([g for g in gr if g[0] == 'og']) and j % 3 == 0:
@@ -1682,7 +1699,7 @@ def c20(tier, seed):
                         ex.fail(cid + '-r', D, ['%s accepted %s: an analysis object was returned' % (kind, what_)], groups=gr, species=sp)
                     except Exception:      # noqa
                         pass
-            ex.submit(cid, D, o.tags, [], groups=gr, species=sp, hist=False, extra=(kind, o), queries=q20)
+            ex.submit(cid, D, o.tags, list(st20), groups=gr, species=sp, hist=False, extra=(kind, o), queries=q20 + sq20)
     # ---- the same in species_resolve_mode="OMA" (a clade named as species resolves to its only child that looks like
     # an OMA species code; everything else as in the default mode)
     import re as _re
